@@ -1,2 +1,30 @@
-(* C14 t-digest part -- being written *)
-From DS Require Import Base.Prelude Model.TDigestCodec Spec.TDigestLayout.
+(* C14, t-digest part -- malformed bytes yield an error, never a panic: the modelled readers
+   (TDigestMut::deserialize with both flavours and deserialize_compat, REPAIRED code: payload-length
+   check before the allocations, checked weight sums) are total and never reach a panic site for
+   ANY byte string; whatever they accept is well-shaped, and the image-sized allocations are
+   covered by the input.  Statements only; proofs in Proofs/TDigestCodec.v. *)
+From DS Require Import Base.Prelude Base.TDigestBits Model.TDigestCodec Proofs.TDigestCodec.
+Open Scope N_scope.
+
+Theorem c14_tdigest_never_stuck : forall is_f32 bs, tdb_dec is_f32 bs <> Stuck.
+Proof. exact tdb_dec_never_stuck. Qed.
+
+(* [shaped s n]: k >= 10; every mean and buffered value finite; every weight >= 1; centroids_weight is
+   their sum; total_weight() = centroids_weight + buffered fits u64 (no overflow when it is evaluated);
+   min / max are not NaN unless the digest is empty; and 8 * #centroids + 4 * #buffered <= n: every
+   item the digest holds was present in the n input bytes *)
+Theorem c14_tdigest_ok_is_wellshaped : forall is_f32 bs s, tdb_dec is_f32 bs = Ok s -> shaped s (length bs).
+Proof. exact tdb_dec_shape. Qed.
+
+(* Vec::with_capacity(num_centroids) / (num_buffered): at most 2 bytes requested per input byte *)
+Theorem c14_tdigest_alloc_linear : forall is_f32 bs, tdb_requests is_f32 bs <= 2 * N.of_nat (length bs).
+Proof. exact tdb_requests_linear. Qed.
+
+(* non-vacuity: the 32-byte image announcing 2^32-1 centroids (known_findings.d/tdigest-C14-centroid-alloc)
+   is rejected without any image-sized request; an image whose weights sum past u64 is rejected *)
+Example c14_tdigest_example :
+  let huge := [2; 1; 20; 100; 0; 0; 0; 0;  255; 255; 255; 255;  0; 0; 0; 0;  0; 0; 0; 0; 0; 0; 0; 0;  0; 0; 0; 0; 0; 0; 0xf0; 0x3f] in
+  tdb_dec false huge = Err /\ tdb_requests false huge = 0 /\
+  tdb_dec false ([2; 1; 20; 100; 0; 0; 0; 0;  2; 0; 0; 0;  0; 0; 0; 0;  0; 0; 0; 0; 0; 0; 0; 0;  0; 0; 0; 0; 0; 0; 0xf0; 0x3f;
+                  0; 0; 0; 0; 0; 0; 0; 0;  255; 255; 255; 255; 255; 255; 255; 255;   0; 0; 0; 0; 0; 0; 0xf0; 0x3f;  2; 0; 0; 0; 0; 0; 0; 0]) = Err.
+Proof. cbv zeta. repeat split; vm_compute; reflexivity. Qed.
